@@ -22,6 +22,32 @@ import (
 // again by a With* call whose cancel function is kept in a struct member (so that close() can call it). A request made
 // under `WithTimeout(WithoutCancel(ctx))` with a merely deferred cancel outlives Close until its own timeout.
 func c08RequestCancellable(c *Ctx) {
+	walk := detachedWalker(c)
+	n := 0
+	for _, fn := range c.P.LibFns {
+		if !clientSide(c, fn) {
+			continue
+		}
+		cnt := 0
+		ir.EachCall(fn, func(call ssa.CallInstruction) {
+			if ir.CallName(call) != "net/http.NewRequestWithContext" || len(call.Common().Args) < 1 {
+				return
+			}
+			n++
+			cnt++
+			why := walk(fn, call.Common().Args[0])
+			c.R.Check(why == "", "R-request-cancellable", sprintf("context of HTTP request #%d built in %s", cnt, fname(ir.Outer(fn))), c.Pos(call.Pos()),
+				"descends from the caller's context, a member of the transport, or a detached context whose cancel function the transport keeps",
+				sprintf("%s issues an HTTP request under a context cut off from every cancellation the transport or its caller controls (%s, wrapped only by a With* call whose cancel function is not kept in a member): Close cannot abort the request, so its goroutine and connection outlive Close until the request's own timeout", fname(fn), why))
+		})
+	}
+	c.R.Min("R-request-cancellable", 6)
+}
+
+// detachedWalker returns a function that follows a context value backwards and names the point where it was cut off
+// from cancellation (WithoutCancel / Background / TODO) without being made cancellable again by a With* call whose
+// cancel function is kept in a member; "" when there is no such point.
+func detachedWalker(c *Ctx) func(fn *ssa.Function, v ssa.Value) string {
 	isWith := func(n string) bool {
 		switch n {
 		case "context.WithCancel", "context.WithTimeout", "context.WithDeadline", "context.WithCancelCause", "context.WithTimeoutCause", "context.WithDeadlineCause":
@@ -204,25 +230,7 @@ func c08RequestCancellable(c *Ctx) {
 		}
 		return ""
 	}
-	n := 0
-	for _, fn := range c.P.LibFns {
-		if !clientSide(c, fn) {
-			continue
-		}
-		cnt := 0
-		ir.EachCall(fn, func(call ssa.CallInstruction) {
-			if ir.CallName(call) != "net/http.NewRequestWithContext" || len(call.Common().Args) < 1 {
-				return
-			}
-			n++
-			cnt++
-			why := walk(fn, call.Common().Args[0], 0, map[key]bool{})
-			c.R.Check(why == "", "R-request-cancellable", sprintf("context of HTTP request #%d built in %s", cnt, fname(ir.Outer(fn))), c.Pos(call.Pos()),
-				"descends from the caller's context, a member of the transport, or a detached context whose cancel function the transport keeps",
-				sprintf("%s issues an HTTP request under a context cut off from every cancellation the transport or its caller controls (%s, wrapped only by a With* call whose cancel function is not kept in a member): Close cannot abort the request, so its goroutine and connection outlive Close until the request's own timeout", fname(fn), why))
-		})
-	}
-	c.R.Min("R-request-cancellable", 6)
+	return func(fn *ssa.Function, v ssa.Value) string { return walk(fn, v, 0, map[key]bool{}) }
 }
 
 // ---------------------------------------------------------------- R-timer-writes (C09, C20)
